@@ -39,18 +39,25 @@ var (
 )
 
 // Errors
-var (
-	overflowError      = ExceptionNewf(OverflowError, "Python int too large to convert to int64")
-	overflowErrorGo    = ExceptionNewf(OverflowError, "Python int too large to convert to a go int")
-	overflowErrorFloat = ExceptionNewf(OverflowError, "long int too large to convert to float")
-	expectingBigInt    = ExceptionNewf(TypeError, "a big int is required")
-)
+//
+// These are made afresh each time they are raised: a program which
+// catches one may modify it, and other contexts must not see that
+func overflowError() *Exception {
+	return ExceptionNewf(OverflowError, "Python int too large to convert to int64")
+}
+func overflowErrorGo() *Exception {
+	return ExceptionNewf(OverflowError, "Python int too large to convert to a go int")
+}
+func overflowErrorFloat() *Exception {
+	return ExceptionNewf(OverflowError, "long int too large to convert to float")
+}
+func expectingBigInt() *Exception { return ExceptionNewf(TypeError, "a big int is required") }
 
 // Checks that obj is exactly a BigInt and returns an error if not
 func BigIntCheckExact(obj Object) (*BigInt, error) {
 	bigInt, ok := obj.(*BigInt)
 	if !ok {
-		return nil, expectingBigInt
+		return nil, expectingBigInt()
 	}
 	return bigInt, nil
 }
@@ -89,7 +96,7 @@ func (x *BigInt) Int() (Int, error) {
 	if (*big.Int)(x).Cmp((*big.Int)(bigIntMax)) <= 0 && (*big.Int)(x).Cmp((*big.Int)(bigIntMin)) >= 0 {
 		return Int((*big.Int)(x).Int64()), nil
 	}
-	return 0, overflowError
+	return 0, overflowError()
 }
 
 // MaybeInt truncates to Int if it can, otherwise returns the original BigInt
@@ -147,7 +154,7 @@ func (a *BigInt) Float() (Float, error) {
 	// big.Float holds the integer exactly, Float64 rounds it once (to nearest, ties to even)
 	f, _ := new(big.Float).SetInt((*big.Int)(a)).Float64()
 	if math.IsInf(f, 0) {
-		return 0, overflowErrorFloat
+		return 0, overflowErrorFloat()
 	}
 	return Float(f), nil
 }
@@ -222,7 +229,7 @@ func (a *BigInt) M__imul__(other Object) (Object, error) {
 // intTrueDiv divides two integers exactly and rounds the quotient once
 func intTrueDiv(a, b *big.Int) (Object, error) {
 	if b.Sign() == 0 {
-		return nil, divisionByZero
+		return nil, divisionByZero()
 	}
 	f, _ := new(big.Rat).SetFrac(a, b).Float64()
 	if f == 0 && (a.Sign() < 0) != (b.Sign() < 0) {
@@ -248,7 +255,7 @@ func (a *BigInt) M__truediv__(other Object) (Object, error) {
 	}
 	fb := b.(Float)
 	if fb == 0 {
-		return nil, divisionByZero
+		return nil, divisionByZero()
 	}
 	return Float(fa / fb), nil
 }
@@ -267,7 +274,7 @@ func (a *BigInt) M__rtruediv__(other Object) (Object, error) {
 	}
 	fb := b.(Float)
 	if fa == 0 {
-		return nil, divisionByZero
+		return nil, divisionByZero()
 	}
 	return Float(fb / fa), nil
 }
@@ -308,7 +315,7 @@ func (a *BigInt) M__imod__(other Object) (Object, error) {
 
 func (a *BigInt) divMod(b *BigInt) (Object, Object, error) {
 	if (*big.Int)(b).Sign() == 0 {
-		return nil, nil, divisionByZero
+		return nil, nil, divisionByZero()
 	}
 	r := new(big.Int)
 	q := new(big.Int)
@@ -406,7 +413,7 @@ func (a *BigInt) M__lshift__(other Object) (Object, error) {
 			return nil, err
 		}
 		if bb < 0 {
-			return nil, negativeShiftCount
+			return nil, negativeShiftCount()
 		}
 		return (*BigInt)(new(big.Int).Lsh((*big.Int)(a), uint(bb))).MaybeInt(), nil
 	}
@@ -420,7 +427,7 @@ func (a *BigInt) M__rlshift__(other Object) (Object, error) {
 			return nil, err
 		}
 		if aa < 0 {
-			return nil, negativeShiftCount
+			return nil, negativeShiftCount()
 		}
 		return (*BigInt)(new(big.Int).Lsh((*big.Int)(b), uint(aa))).MaybeInt(), nil
 	}
@@ -438,7 +445,7 @@ func (a *BigInt) M__rshift__(other Object) (Object, error) {
 			return nil, err
 		}
 		if bb < 0 {
-			return nil, negativeShiftCount
+			return nil, negativeShiftCount()
 		}
 		return (*BigInt)(new(big.Int).Rsh((*big.Int)(a), uint(bb))).MaybeInt(), nil
 	}
@@ -452,7 +459,7 @@ func (a *BigInt) M__rrshift__(other Object) (Object, error) {
 			return nil, err
 		}
 		if aa < 0 {
-			return nil, negativeShiftCount
+			return nil, negativeShiftCount()
 		}
 		return (*BigInt)(new(big.Int).Rsh((*big.Int)(b), uint(aa))).MaybeInt(), nil
 	}
